@@ -365,8 +365,11 @@ def h_lookup(ctx):
         return ''.join(chr(c) for c in NAMETAB[o:e])
     want_names = [''] + [ref_name(ctx.concretize(o)) for o in name_offs] + ['c']
     ctx.check_eq('lookup/names', names, want_names)
-    for q in ('', 'a', 'bc', 'c', 'zz', 'b'):
+    for q in ('', 'a', 'bc', 'c', 'zz', 'b', 'abc', 'ab'):
         present = q in want_names
+        # the very first query on a freshly opened file (nothing cached yet): a string that merely occurs in the name table (an
+        # unreferenced string, the tail of another name) is not a section name
+        ctx.check_eq('lookup/has_section/first-query', EF.ELFFile(ctx.stream(data)).has_section(q), present)
         ctx.check_eq('lookup/has_section', elf.has_section(q), present)
         idx = elf.get_section_index(q)
         sec = elf.get_section_by_name(q)
